@@ -1,6 +1,6 @@
 """C14 - SM2 scalar multiplication equals the integer multiple, for all scalars."""
 from .. import core, ecpy as ec
-from ..sm2gen import Gen, rb, b32, N, P, rscalar
+from ..sm2gen import Gen, rb, b32, N, P, rscalar, limb_structured
 from ..run import Check, generic_replay
 from .c15 import proj
 
@@ -49,6 +49,7 @@ def gen(chk, tier):
             v2 = int.from_bytes(bytes(vb), "big")
             if v2 >= N:
                 ks.append(v2)
+        ks += limb_structured(rng, 8 if q else 200)          # limbs with zero halves, single bits, ...
         for k in ks:
             g.one("base_scheme_%s" % ("public" if scheme < 0 else "_".join(map(str, SCHEMES[scheme]))), "sm.base",
                   scheme=scheme, k=b32(k))
@@ -64,6 +65,7 @@ def gen(chk, tier):
                 for v in (range(1, 16) if not q else (1, 8, 15)):
                     ks.append(v << (4 * pos))
                     ks.append((T256 - 1) ^ (v << (4 * pos)))
+        ks += limb_structured(rng, 4 if q else 60)
         for k in ks:
             g.one("mult_" + name, "sm.mult", p1=proj(rng, pt), k=b32(k))
     for L in [0, 1, 2, 5, 16, 31, 33, 40]:
@@ -79,6 +81,8 @@ def gen(chk, tier):
                 for v in (1, 7, 9, 15, 16, 31):
                     pairs.append((rng.getrandbits(256), (v << pos) % T256))
                     pairs.append((rng.getrandbits(256), (T256 - 1) ^ ((v << pos) % T256)))
+        st = limb_structured(rng, 6 if q else 100)
+        pairs += [(rng.choice(st), rng.choice(st)) for _ in range(4 if q else 80)]
         for (gk, sk) in pairs:
             g.one("mixed_" + name, "sm.mixed", g=b32(gk), p1=proj(rng, pt, z=1), s=b32(sk))
     return g.cmds
